@@ -5,7 +5,7 @@ R4 chunked fix-up, R5 redirect set, R6 nothing after the body."""
 import json
 import os
 
-from .. import core, tables, fmt
+from .. import core, tables, fmt, panics
 from ..core import describe, is_variant
 from . import shared
 
@@ -162,6 +162,135 @@ def set_cookie(chk, prog):
             v = tables.variant_name(vp)
             chk.ob("R3.samesite", f, f"SameSite::{v}", val == ("lit", v), f"SameSite::{v} serialises as {val}")
         chk.ob("R3.samesite", f, "all three variants", len(mp) == 3 and not rest, f"table covers {sorted(mp)} rest={len(rest)}")
+
+
+def head_line_breaks(chk, prog):
+    """R6.line_breaks: "status line, one line per header, blank line, body" for ANY number of headers, zero included.  Counted on the serialiser:
+    the CRLFs written unconditionally outside the header loop are exactly two (end of the status line and the blank line, in whatever grouping),
+    every header iteration writes exactly one, and no `join("\r\n")` stands in for the loop (n headers give n-1 separators, so the count cannot be
+    right for both n = 0 and n > 0)."""
+    fs = prog.impl_fn(r"^<std::vec::Vec<u8> as std::convert::From<humphrey::http::response::Response>>$", "from")
+    chk.floor("From<Response> for Vec<u8>", len(fs), 1)
+    if not fs:
+        return
+    b = prog.bodies[fs[0]]
+    rets = core.return_blocks(b)
+
+    def crlfs(d):
+        if isinstance(d, tuple) and d and d[0] == "lit":
+            v = d[1]
+            if isinstance(v, (bytes, bytearray)):
+                return bytes(v).count(b"\r\n")
+            if isinstance(v, str):
+                return v.count("\r\n")
+            if isinstance(v, int) and v == 10:
+                return 0
+        return 0
+    fam = shared.family(prog, b.path)
+    joins = []
+    for bb in fam:
+        for blk, t in bb.calls_to(r"::join$"):
+            if len(t["args"]) > 1 and crlfs(core.describe(prog, bb, t["args"][1])) > 0:
+                joins.append((bb, blk))
+    uncond = in_loop = 0
+    cond_sites = []
+    n_ev = 0
+    # (what follows the body — the CRLF the serialiser appends after a non-empty body is the subject of R8.nothing_after_body — is not the head)
+    rf = [x["name"] for x in prog.structs.get("humphrey::http::response::Response", {}).get("fields", [])]
+    bi_ = rf.index("body") if "body" in rf else None
+    body_sites = [blk for blk, t in b.calls_to(r"Vec::<T, A>::(extend_from_slice|append)$|Extend<.*>>::extend$")
+                  if len(t["args"]) > 1 and core.desc_contains(core.describe(prog, b, t["args"][1]), lambda y: y[0] == "field" and y[2] == bi_ and isinstance(y[1], tuple) and y[1][0] == "param")]
+    after_body = set()
+    for bs in body_sites:
+        after_body |= set(b.reachable(b.succs(bs)))
+    for blk, t in b.calls_to(r"Vec::<T, A>::(extend_from_slice|push)$|Extend<.*>>::extend$|String::push_str$"):
+        n_ev += 1
+        if blk in after_body:
+            continue
+        k = crlfs(panics._strip(core.describe(prog, b, t["args"][1]))) if len(t["args"]) > 1 else 0
+        if not k:
+            continue
+        if blk in b.reachable(b.succs(blk)):
+            in_loop += k
+        elif all(b.dominates(blk, r) for r in rets):
+            uncond += k
+        else:
+            cond_sites.append(blk)
+    for blk_i, pieces in fmt.format_sites(b):
+        k = sum(p_[1].count("\r\n") for p_ in pieces if p_[0] == "lit" and isinstance(p_[1], str))
+        if not k:
+            continue
+        if blk_i in b.reachable(b.succs(blk_i)):
+            in_loop += k
+        elif all(b.dominates(blk_i, r) for r in rets):
+            uncond += k
+        else:
+            cond_sites.append(blk_i)
+    # header lines written by a closure handed to for_each / a helper called from it: one call per header
+    for cb in fam:
+        if cb is b or cb.kind != "closure":
+            continue
+        for blk, t in cb.calls_to(r"Vec::<T, A>::(extend_from_slice|push)$|Extend<.*>>::extend$|String::push_str$"):
+            n_ev += 1
+            in_loop += crlfs(panics._strip(core.describe(prog, cb, t["args"][1]))) if len(t["args"]) > 1 else 0
+        for blk_i, pieces in fmt.format_sites(cb):
+            in_loop += sum(p_[1].count("\r\n") for p_ in pieces if p_[0] == "lit" and isinstance(p_[1], str))
+    chk.floor("byte-appending sites in the response serialiser", n_ev, 3)
+    chk.ob("R6.line_breaks", b.path, "no join(\"\\r\\n\") stands in for the per-header line breaks", not joins,
+           "header lines are joined with CRLF: n headers give n-1 separators, so a response without headers is written with one blank line too many "
+           "(a stray CRLF in front of the next message on the connection)", where=b.where(joins[0][1]) if joins else "")
+    if not cond_sites and not joins:
+        chk.ob("R6.line_breaks", b.path, "outside the header loop exactly two CRLFs are written (end of the status line, blank line)", uncond == 2, f"{uncond} unconditional CRLF(s)")
+        chk.ob("R6.line_breaks", b.path, "each header iteration writes exactly one CRLF", in_loop == 1, f"{in_loop} CRLF(s) per iteration")
+    elif cond_sites:
+        chk.extra.setdefault("not_decided_on_this_tree", []).append("CRLF accounting of the response serialiser (line breaks written under conditions)")
+
+
+def chunk_size_hex(chk, prog):
+    """R4.chunk_hex: a chunk-size line is hexadecimal "in either case" (RFC 9112 §7.1, HEXDIG is case-insensitive).  Either the size goes through
+    `usize::from_str_radix(.., 16)`, or — for a hand-written digit parser — the set of bytes it accepts as digits, computed by the byte-class
+    flow over its byte variable, is exactly 0-9 a-f A-F."""
+    from .. import byteset
+    fn = "humphrey::http::response::parse_chunk"
+    if fn not in prog.bodies:
+        chk.floor("parse_chunk", 0, 1)
+        return
+    fam = shared.family(prog, fn)
+    std = []
+    for bb in fam:
+        for blk, t in bb.calls_to(r"from_str_radix$"):
+            if len(t["args"]) > 1 and core.describe(prog, bb, t["args"][1]) == ("lit", 16):
+                std.append((bb, blk))
+    if std:
+        chk.ob("R4.chunk_hex", fn, "the chunk size is parsed with from_str_radix(.., 16) (hex digits in either case)", True)
+        return
+    hexmask = byteset.set_mask(list(range(48, 58)) + list(range(65, 71)) + list(range(97, 103)))
+    decided = False
+    for bb in fam:
+        for i in range(1, bb.argc + 1):
+            if (bb.local_ty(i) or "").strip() not in ("u8", "&u8"):
+                continue
+            try:
+                fl = byteset.ByteFlow(prog, bb, ("param", i, bb.local_name(i)))
+            except Exception:
+                continue
+            reject = 0
+            n_rej = 0
+            for bi, blk_ in enumerate(bb.blocks):
+                for st in blk_["stmts"]:
+                    rv = st.get("rv")
+                    if "pl" in st and st["pl"]["l"] == 0 and not st["pl"]["p"] and rv and rv.get("k") == "agg" and rv.get("variant") in ("None", "Err") and \
+                            not any(lab in ("None", "Break", "Err") for s_, lab, gd, info in core.guards_dominating(prog, bb, bi)):
+                        reject |= fl.at_term.get(bi, 0)
+                        n_rej += 1
+            if n_rej:
+                decided = True
+                accepted = byteset.ALL & ~reject
+                chk.ob("R4.chunk_hex", bb.path, "the bytes accepted as chunk-size digits are exactly 0-9, a-f and A-F", accepted == hexmask,
+                       f"accepted digit bytes: {''.join(chr(v) for v in byteset.members(accepted) if 32 < v < 127)!r}: a chunk size written in the other case ends the body early "
+                       "(the client returns a silently truncated body)", where=bb.file)
+    if not decided:
+        chk.extra.setdefault("not_decided_on_this_tree", []).append("chunk-size digit set (no from_str_radix(16) and no byte-class the flow can follow)")
 
 
 def chunked_fixup(chk, prog):
@@ -351,6 +480,8 @@ def run(chk):
     c02.header_table(chk, prog, "A")
     set_cookie(chk, prog)
     chunked_fixup(chk, prog)
+    chunk_size_hex(chk, prog)
+    head_line_breaks(chk, prog)
     redirect_set(chk, prog, st)
     shared.nothing_after_body(chk, prog, "R6")
     shared.response_reads(chk, prog, "R7.reads")
